@@ -28,6 +28,12 @@ CHECKS = {
    text="Both wall-clock edges of every transition of every zone are probed to the nanosecond, plus the extreme civil datetimes; classification, all four strategies and every civil->zoned entry point are compared with the instant-direction oracle; out-of-range results must be errors, not panics.",
    note="Trusted: reftz.rs instant direction (C03). Civil times displayed by >= 3 instants are skipped and counted.",
    design="DESIGN.md section 3 C04"),
+ "C06": dict(
+   technique="proptest generation of (zone, instant near transitions, span/duration) against a reference interpreter (civil add on day numbers, compatible resolution via the independent zone reader, exact nanosecond add); targeted construction of starts whose civil intermediate lands inside a gap/fold",
+   category="exploration",
+   text="Zoned +/- span and absolute durations in checked, saturating and operator forms, plus start_of_day/end_of_day/tomorrow/yesterday, are compared with the reference interpreter over every installed, synthetic and POSIX zone; 19% of span cases have their civil intermediate inside a gap or fold by construction.",
+   note="Trusted: reftz.rs, refarith.rs. Two listed findings (start/end of day when midnight lies strictly inside a gap; odd synthetic zones and right/Asia/Tehran only).",
+   design="DESIGN.md section 3 C06"),
  "C08": dict(
    technique="proptest generation of (civil value, span/duration) pairs up to the unit limits against a reference interpreter on day numbers and i128 nanoseconds (differential oracle)",
    category="exploration",
